@@ -261,6 +261,44 @@ func genScenario(t *rapid.T, maxN int) scenario {
 	return sc
 }
 
+// viaWire passes a validator set through its protobuf encoding with the fields no hash covers forged by the sender
+// (total_voting_power; the proposer entry's priority): light blocks, evidence and state-sync data reach the verify
+// functions in exactly this way, and the required fraction is a fraction of the set's REAL total power.
+func viaWire(t *rapid.T, vals *types.ValidatorSet, label string) (*types.ValidatorSet, string) {
+	mode := rapid.SampledFrom([]string{"memory", "memory", "honest-wire", "forged-total", "forged-total"}).Draw(t, label)
+	if mode == "memory" {
+		return vals, mode
+	}
+	vp, err := vals.ToProto()
+	if err != nil {
+		t.Fatalf("VERIF-INFRA: ToProto: %v", err)
+	}
+	if mode == "forged-total" {
+		real := vals.TotalVotingPower()
+		vp.TotalVotingPower = rapid.SampledFrom([]int64{1, 2, real / 3, real / 2, real - 1, real + 1, 1<<63 - 1, -1, -real}).Draw(t, label+".total")
+		if vp.Proposer != nil && rapid.Bool().Draw(t, label+".prio") {
+			vp.Proposer.ProposerPriority = rapid.Int64Range(-1<<40, 1<<40).Draw(t, label+".pp")
+		}
+	}
+	bz, err := vp.Marshal()
+	if err != nil {
+		t.Fatalf("VERIF-INFRA: marshal: %v", err)
+	}
+	var back tmproto.ValidatorSet
+	if err := back.Unmarshal(bz); err != nil {
+		t.Fatalf("VERIF-INFRA: unmarshal: %v", err)
+	}
+	out, err := types.ValidatorSetFromProto(&back)
+	if err != nil {
+		// a decoder may refuse a forged message; an honest one must decode
+		if mode == "honest-wire" {
+			t.Fatalf("honest validator set does not survive its own encoding: %v", err)
+		}
+		return vals, "forged-total-refused-by-decoder"
+	}
+	return out, mode
+}
+
 // warmUp verifies, through all three entry points and BEFORE the verification under test, genuine commits of the same
 // validators at the same timestamps for other contexts (another block, nil, another round / height / chain): the
 // signatures the non-counting slot kinds reuse. The property is a function of the arguments alone, so nothing that
@@ -444,8 +482,9 @@ func TestFullAndLight(t *testing.T) {
 			string(blockID.PartSetHeader.Hash) == string(sc.commit.BlockID.PartSetHeader.Hash)
 
 		warmed := warmUp(t, sc)
-		errFull := sc.vs.Set.VerifyCommit(chain, blockID, height, sc.commit)
-		errLight := sc.vs.Set.VerifyCommitLight(chain, blockID, height, sc.commit)
+		subject, wire := viaWire(t, sc.vs.Set, "wire")
+		errFull := subject.VerifyCommit(chain, blockID, height, sc.commit)
+		errLight := subject.VerifyCommitLight(chain, blockID, height, sc.commit)
 
 		nontrivial := ref.nonCount > 0 || nearThreshold(ref, 2, 3)
 		cls := []string{"profile:" + sc.profile, fmt.Sprintf("full-accept:%v", errFull == nil), fmt.Sprintf("threshold:%v", threshold),
@@ -456,6 +495,7 @@ func TestFullAndLight(t *testing.T) {
 		if len(warmed) > 0 {
 			cls = append(cls, "after-verifying-related-commits")
 		}
+		cls = append(cls, "valset:"+wire)
 		if !sc.blockID.IsComplete() {
 			cls = append(cls, "incomplete-block-id")
 		}
@@ -595,7 +635,8 @@ func TestTrusting(t *testing.T) {
 			inDomain = light.ValidateTrustLevel(level) == nil
 		}
 		warmed := warmUp(t, sc)
-		err := trusted.VerifyCommitLightTrusting(chain, sc.commit, level)
+		subject, wire := viaWire(t, trusted, "wire")
+		err := subject.VerifyCommitLightTrusting(chain, sc.commit, level)
 
 		num, den := new(big.Int).SetUint64(level.Numerator), new(big.Int).SetUint64(level.Denominator)
 		threshold := level.Denominator != 0 && above(ref.tally, ref.total, num, den)
@@ -607,7 +648,7 @@ func TestTrusting(t *testing.T) {
 		nontrivial := ref.nonCount > 0 || near
 		lib.Case("TestTrusting", lib.FP(sc.kinds, sc.profile, tkind, n, ref.tally, ref.total, level.Numerator, level.Denominator), nontrivial,
 			"fraction:"+fkind, "trusted:"+tkind, fmt.Sprintf("accept:%v", err == nil), fmt.Sprintf("indomain:%v", inDomain),
-			fmt.Sprintf("after-verifying-related-commits:%v", len(warmed) > 0), fmt.Sprintf("complete-block-id:%v", sc.blockID.IsComplete()))
+			fmt.Sprintf("after-verifying-related-commits:%v", len(warmed) > 0), fmt.Sprintf("complete-block-id:%v", sc.blockID.IsComplete()), "valset:"+wire)
 		if nontrivial && lib.WantSample("TestTrusting") {
 			d := describe(sc)
 			d["trusted"], d["level"], d["ref_tally"], d["total"], d["err"] = tkind, level.String(), ref.tally.String(), ref.total.String(), fmt.Sprint(err)
